@@ -749,7 +749,11 @@ def ble_live_case(case):
     the case 'as actually walked', each item with the statuses the per-(iid, opcode) queues will give it."""
     items3 = [(a, i, v) for (a, i, v, _, _) in case["items"]]
     _, new = mutated(items3, case["inflight"], True, BLE_POOL)
-    eff = items3[:1] + new[1:]
+    # the change happens during the first REQUEST, i.e. at the first item that is writable at all
+    j = next((n for n, (_, i, _) in enumerate(items3) if {"tw", "pw"} & set(case["perms"][str(i)].split(","))), None)
+    if j is None:
+        return case
+    eff = items3[:j + 1] + new[j + 1:]
     queues = {}
     for (a, i, v, s1, s2) in case["items"]:
         p = case["perms"][str(i)].split(",")
@@ -775,6 +779,21 @@ def ble_live_case(case):
             failed = bool(s1 or s2)
         out.append((a, i, v, s1, s2))
     return dict(case, items=out)
+
+
+def ble_want_calls(c):
+    want_calls = []
+    for (_a, i, _v, s1, s2) in c["items"]:
+        pl = c["perms"][str(i)].split(",")
+        if "tw" in pl:
+            want_calls += [(4, i)] if s1 else [(4, i), (5, i)]
+            if s1 or s2:
+                break
+        elif "pw" in pl:
+            want_calls.append((2, i))
+            if s1:
+                break
+    return want_calls
 
 
 def fmt_read_ble(R):
@@ -1902,9 +1921,12 @@ def run(ctx):
         if c0.get("inflight"):
             # the argument changed during the first request: snapshot semantics (what was handed over) and live
             # iteration (what the loop walked) are both faithful reports of what the accessory was sent
-            if res != m0 and res == m_live[idx]:
-                c, m = live[idx], m_live[idx]
-            ble_sem["snapshot" if res == m0 else ("live" if res == m_live[idx] else "neither")] += 1
+            sem = "neither"
+            for name, cc, mm in (("snapshot", c0, m0), ("live", live[idx], m_live[idx])):
+                if res == mm and ble.calls == ble_want_calls(cc):
+                    sem, c, m = name, cc, mm
+                    break
+            ble_sem[sem] += 1
         orc = oracle_bleput(c, res)
         if orc is None:
             want_calls = []
